@@ -43,8 +43,38 @@ def V(d):
     return Vector(float(d[0]), float(d[1]), float(d[2]))
 
 
+class ConstructionFailed(Exception):
+    """a public constructor raised on a valid operand: a library defect, reported as a
+    violation by the explorer (never a harness error)."""
+
+    def __init__(self, o, exc):
+        Exception.__init__(self, '%s: %s(%s)' % (o[0] if o else o, type(exc).__name__, exc))
+        self.kind = o[0] if o else 'None'
+        self.cls = type(exc).__name__
+        self.obj = o
+
+
 def to_lib(o):
     """exact model object -> freshly constructed library object (public constructors only)."""
+    try:
+        return _to_lib(o)
+    except (LibTimeout, ConstructionFailed):
+        raise
+    except Exception as e:  # noqa
+        raise ConstructionFailed(o, e)
+
+
+def construct(kind, fn):
+    """run a public constructor on valid arguments; failure is a library defect."""
+    try:
+        return fn()
+    except (LibTimeout, ConstructionFailed):
+        raise
+    except Exception as e:  # noqa
+        raise ConstructionFailed((kind,), e)
+
+
+def _to_lib(o):
     if o is None:
         return None
     k = o[0]
@@ -69,6 +99,10 @@ def to_lib(o):
     raise TypeError(k)
 
 
+class LibTimeout(Exception):
+    pass
+
+
 class Raised:
     """outcome of a library call that raised."""
 
@@ -80,15 +114,11 @@ class Raised:
         return 'raises:%s(%s)' % (self.cls, self.msg)
 
 
-class LibTimeout(Exception):
-    pass
-
-
 def call(fn, *a, **kw):
     """Run one library call; exceptions are caught only here."""
     try:
         return fn(*a, **kw)
-    except LibTimeout:
+    except (LibTimeout, ConstructionFailed):
         raise
     except RecursionError as e:
         return Raised(e)
